@@ -365,7 +365,9 @@ func (m *Mux) serveHTTP(w http.ResponseWriter, r *http.Request) error {
 	if err != nil {
 		return err
 	}
-	params = append(params, queryParams...)
+	// Path parameters are applied last: a field bound by the URL path keeps
+	// the captured value whatever the query string says.
+	params = append(queryParams, params...)
 
 	hd, err := s.pickMethodHandler(method.name)
 	if err != nil {
